@@ -276,8 +276,9 @@ theorem loadGoAway_error (h : Head) (p : Bytes) (v : Spec.Frame.Violation) (hs0 
   error_of_sound (fun f hf => by obtain ⟨f', _, h'⟩ := loadGoAway_sound h p f hs0 hf; exact ⟨f', h'⟩) v hs
 
 /-- THE EXCEPTION, exactly: a GOAWAY frame on any stream other than 0 with at least 8 payload octets
-    is accepted (§6.8: MUST be treated as a connection error PROTOCOL_ERROR).  Nothing downstream in
-    h2 looks at the stream identifier of a GOAWAY either (known finding F11). -/
+    is accepted by the loader (§6.8: MUST be treated as a connection error PROTOCOL_ERROR).  This was
+    finding F11; the check now sits in `decode_frame`, in front of the loader (`decodeFrame_sound`
+    needs no hypothesis about GOAWAY). -/
 theorem loadGoAway_nonzero_stream (flags sid : Nat) (p : Bytes) (hs : sid ≠ 0) (hp : 8 ≤ p.length) :
     loadGoAway p = .ok (.goAway (parseStreamId p).1 (rd32 (p.drop 4)) (p.drop 8)) ∧
     Spec.Frame.ofParts 7 flags sid p = .error .protocol := by
